@@ -239,6 +239,17 @@ struct LoadedLinkerScript<'data> {
 pub(crate) struct AuxiliaryFiles<'data> {
     pub(crate) version_script_data: Option<ScriptData<'data>>,
     pub(crate) export_list_data: Option<ScriptData<'data>>,
+
+    /// The files that the data above was read from.
+    files: Vec<&'data InputFile>,
+}
+
+impl<'data> FileLoader<'data> {
+    /// Records the version script and export list as files that the link read, so that they're
+    /// checked for modification and listed in the dependency file like any other input.
+    pub(crate) fn add_auxiliary_files(&mut self, auxiliary: &AuxiliaryFiles<'data>) {
+        self.loaded_files.extend(&auxiliary.files);
+    }
 }
 
 impl<'data> AuxiliaryFiles<'data> {
@@ -256,15 +267,17 @@ impl<'data> AuxiliaryFiles<'data> {
             }
         };
 
+        let mut files = Vec::new();
+        let mut read = |path: &Path| -> Result<ScriptData<'data>> {
+            let file = read_script_file(&resolve_script_path(path), inputs_arena)?;
+            files.push(file);
+            Ok(ScriptData { raw: file.data() })
+        };
+
         Ok(Self {
-            version_script_data: args
-                .version_script_path()
-                .map(|path| read_script_data(&resolve_script_path(path), inputs_arena))
-                .transpose()?,
-            export_list_data: args
-                .export_list_path()
-                .map(|path| read_script_data(&resolve_script_path(path), inputs_arena))
-                .transpose()?,
+            version_script_data: args.version_script_path().map(&mut read).transpose()?,
+            export_list_data: args.export_list_path().map(&mut read).transpose()?,
+            files,
         })
     }
 }
@@ -726,20 +739,18 @@ impl<'data, P: Platform> TemporaryState<'data, P> {
     }
 }
 
-fn read_script_data<'data>(
+fn read_script_file<'data>(
     path: &Path,
     inputs_arena: &'data Arena<InputFile>,
-) -> Result<ScriptData<'data>> {
+) -> Result<&'data InputFile> {
     let data = FileData::new(path, false).context("Failed to read script")?;
 
-    let file = inputs_arena.alloc(InputFile {
+    Ok(inputs_arena.alloc(InputFile {
         filename: path.to_owned(),
         original_filename: path.to_owned(),
         modifiers: Default::default(),
         data: Some(data),
-    });
-
-    Ok(ScriptData { raw: file.data() })
+    }))
 }
 
 impl Input {
